@@ -61,64 +61,7 @@ Definition Entry (t : nat) (s : cstate) : Prop :=
     X = low + 2 ^ (ab - c_atake s) * c_anorm s + 2 ^ ab * c_acarry s /\
     2 * Z.abs low <= 2 ^ (ab - c_atake s).
 
-(* one run of the inner loop on digit t *)
-Lemma entry_step (t : nat) (s : cstate) (fuel : nat) :
-  Entry t s -> (t < length a)%nat -> zn t + 1 <= zn (length a) - lo -> ab <= Z.of_nat fuel ->
-  let r := cross_inner 64 fuel rb ab (length a - 1 - t) s in
-  snd r <> Fuel /\ (snd r = InnerDone -> Outer (S t) (fst r)) /\ (snd r = OuterBreak -> Final (c_res (fst r))).
-Proof.
-  intros (Sh & Hr & Hat & Hn & Hc & Hrc & HF & drop & X & low & Hdrop & EV & HX & EX & Hlow) Ht Htl Hfuel.
-  cbv zeta.
-  assert (HF0 : 0 <= Fpos rb rsz s).
-  { apply Fpos_nonneg; [lia|apply Sh|lia]. }
-  assert (Hpre : pre rb ab rsz (length a - 1 - t) s).
-  { unfold pre. split; [exact Sh|]. split; [exact Hr|]. split; [exact Hat|]. split; [exact Hn|].
-    split; [exact Hc|]. split; [exact Hrc|]. intros E0.
-    assert (Elo : lo = 0) by (unfold zn in *; lia).
-    rewrite Elo in Hgeo. assert (zn t + 1 = zn (length a)) by (unfold zn in *; lia).
-    clear - HF Hgeo H. rewrite H in HF. lia. }
-  pose proof (cross_inner_spec rb ab Hrb Hab rsz (length a - 1 - t) fuel s Hpre ltac:(lia)) as (P1 & P2 & P3).
-  set (s' := fst (cross_inner 64 fuel rb ab (length a - 1 - t) s)) in *.
-  set (o := snd (cross_inner 64 fuel rb ab (length a - 1 - t) s)) in *.
-  clearbody s' o. clear Hpre.
-  split; [exact P1|]. split.
-  - intros Ho. destruct (P2 Ho) as (Pi & Q1 & Q2 & Q3 & Q4 & Q5 & Q6 & Q7 & Q8). clear P2 P3.
-    set (Dl := c_acarry s' - c_acarry s) in *.
-    assert (Eacc : c_acarry s' = c_acarry s + Dl) by (unfold Dl; ring).
-    set (e := ab - c_atake s) in *.
-    assert (He : 0 <= e) by (unfold e; lia).
-    assert (Eab : 2 ^ ab = 2 ^ e * 2 ^ c_atake s).
-    { rewrite <- pow2_add by lia. f_equal. unfold e. ring. }
-    unfold Outer. split; [exact Q5|]. split; [exact Q6|]. split; [exact Q7|]. split.
-    { (* bound of the new carry *)
-      apply (carry_after_pieces ab (2 ^ 62) X (low + 2 ^ e * Pi) (c_acarry s')); [lia|cbn; lia|exact HX| |].
-      - rewrite EX, Q1, Eacc, Eab. ring.
-      - rewrite Eab. apply pt_bound; [exact He|lia|exact Hlow|exact Q2]. }
-    split.
-    { rewrite Q4. replace (zn (S t)) with (zn t + 1) by (unfold zn; lia). clear - HF. lia. }
-    exists drop. split; [exact Hdrop|].
-    replace (zn (S t)) with (zn t + 1) by (unfold zn; lia).
-    rewrite EV, Q3, Q1, Eacc.
-    assert (EgF : 2 ^ (g + Fpos rb rsz s) = 2 ^ g * 2 ^ Fpos rb rsz s) by (apply pow2_add; lia).
-    assert (ET : 2 ^ (z + (zn t + 1) * ab) = 2 ^ (g + Fpos rb rsz s) * 2 ^ c_atake s).
-    { rewrite <- pow2_add by lia. f_equal. clear - HF. lia. }
-    rewrite ET, EgF. ring.
-  - intros Ho. destruct (P3 Ho) as (Q0 & QL & K & Q). clear P2 P3.
-    unfold Final. split; [exact QL|].
-    destruct (ival_split ab Hab1 (vin a lsh) (length a) (fun u Hu => vin_zero a lsh u Hu) (S t)) as [Y HY].
-    fold (Lval (length a)) in HY. fold (Lval (S t)) in HY.
-    set (e2 := Fpos rb rsz s + c_atake s - zn rsz * rb).
-    assert (He2 : 0 <= e2) by (unfold e2; lia).
-    exists drop, (- K + 2 ^ e2 * (c_acarry s + Y)). split; [exact Hdrop|].
-    rewrite HY, Z.mul_add_distr_l, EV, Q.
-    assert (EgF : 2 ^ (g + Fpos rb rsz s) = 2 ^ g * 2 ^ Fpos rb rsz s) by (apply pow2_add; lia).
-    assert (ER : 2 ^ (g + zn rsz * rb) = 2 ^ g * 2 ^ (zn rsz * rb)) by (apply pow2_add; unfold zn; nia).
-    assert (ET : 2 ^ (z + (zn t + 1) * ab) = 2 ^ (g + zn rsz * rb) * 2 ^ e2).
-    { rewrite <- pow2_add by (unfold zn in *; nia). f_equal. unfold e2. clear - HF. lia. }
-    assert (ES : 2 ^ z * 2 ^ (zn (S t) * ab) = 2 ^ (z + (zn t + 1) * ab)).
-    { rewrite <- pow2_add by (unfold zn; nia). f_equal. unfold zn. lia. }
-    replace (2 ^ z * (2 ^ (zn (S t) * ab) * Y)) with (2 ^ z * 2 ^ (zn (S t) * ab) * Y) by ring.
-    rewrite ES, ET, EgF, ER. ring.
-Qed.
+(* `entry_step` (one run of the inner loop on digit t: Entry -> Outer / Final) is proved for every word width in
+   Proofs/C08WCrossOuter.v (`entry_stepW`); its instance at width 64 is in Proofs/C08Cross64.v. *)
 
 End Outer.
